@@ -337,33 +337,20 @@ def rule_walker_hidden(ctx: Ctx, rule: str) -> None:
         ("'.'" in dotatom[0] if dotatom else False)
     ctx.ob(rule, 'glob:Glob._is_hidden/table', ok, repo.loc('glob', ih.node), "not self.dot and name[0:1] == '.'",
            f'{len(paths)} rows, atoms {sorted(atoms)}', witness="glob('*') must not return `.hidden`")
+    from .cglob import glob_dir_table
     gd = repo.func('glob', 'Glob._glob_dir')
-    q = fq(gd)
-    ys = [n for n in q.cfg.nodes if n.kind == 'stmt' and isinstance(n.ast, ast.Expr) and isinstance(n.ast.value, (ast.Yield, ast.YieldFrom))]
-    rec = [n for n in ys if isinstance(n.ast.value, ast.YieldFrom) and 'self._glob_dir(' in norm_src(n.ast.value)]
-    plain = [n for n in ys if isinstance(n.ast.value, ast.Yield)]
-    ctx.floor(rule, 'yield sites in _glob_dir', len(ys), 3)
-    for i, n in enumerate(rec, 1):
-        g = q.guards(n.id)
-        need = [('deep', 'T'), ('hidden', 'F'), ('is_dir', 'T'), ('follow', 'T'), ('file in self.specials', 'F')]
-        miss = [x for x in need if x not in g]
-        ctx.ob(rule, f'glob:Glob._glob_dir/descent@{i}', not miss, repo.loc('glob', n.ast),
-               'descent only under deep ∧ ¬hidden ∧ is_dir ∧ follow and never for `.`/`..`', f'missing guards {miss}' if miss else 'all guards present',
-               witness="glob('**', GLOBSTAR) must not list .git/ contents; must never recurse into `..`")
-    for i, n in enumerate(plain, 1):
-        g = q.guards(n.id)
-        if ('file in self.specials', 'T') in g:
-            ok = ('matcher is not None', 'T') in g and ('matcher(file)', 'T') in g
-            ctx.ob(rule, f'glob:Glob._glob_dir/special-yield@{i}', ok, repo.loc('glob', n.ast),
-                   '`.`/`..` yielded only when a matcher exists and accepted the name', f'guards {sorted(g)}',
-                   witness="glob('*') with SCANDOTDIR off must not return `.`; `**` must never yield `..`")
-        else:
-            blocked = {(c.id, 'F') for c in q.cond_nodes('hidden')} | {(c.id, 'T') for c in q.cond_nodes('matcher(file)')}
-            reach = q.cfg.reachable_from(q.cfg.entry.id, blocked_edges=blocked)
-            ok = n.id not in reach and bool(q.cond_nodes('hidden')) and bool(q.cond_nodes('matcher(file)'))
-            ctx.ob(rule, f'glob:Glob._glob_dir/entry-yield@{i}', ok, repo.loc('glob', n.ast),
-                   'yield only if (no matcher ∧ ¬hidden) or the matcher accepted the name', f'guards {sorted(g)}',
-                   witness="glob('**', GLOBSTAR) must not return hidden files")
+    bad, n = glob_dir_table(repo)
+    site = repo.loc('glob', gd.node)
+    ctx.floor(rule, 'entry rows in the _glob_dir table', n, 20)
+    ctx.ob(rule, 'glob:Glob._glob_dir/descent', not bad['descent'], site,
+           'descent only under deep ∧ ¬hidden ∧ is_dir ∧ follow and never for `.`/`..`', f'{n} rows agree' if not bad['descent'] else bad['descent'][0],
+           witness="glob('**', GLOBSTAR) must not list .git/ contents; must never recurse into `..`")
+    ctx.ob(rule, 'glob:Glob._glob_dir/special-yield', not bad['special-yield'], site,
+           '`.`/`..` yielded only when a matcher exists and accepted the name; never descended into', 'agree' if not bad['special-yield'] else bad['special-yield'][0],
+           witness="glob('*') with SCANDOTDIR off must not return `.`; `**` must never yield `..`")
+    ctx.ob(rule, 'glob:Glob._glob_dir/entry-yield', not bad['entry-yield'] and not bad['iter-call'], site,
+           'yield (path, is_dir) iff (no matcher ∧ ¬hidden) or the matcher accepted the name', 'agree' if not (bad['entry-yield'] or bad['iter-call']) else (bad['entry-yield'] + bad['iter-call'])[0],
+           witness="glob('**', GLOBSTAR) must not return hidden files")
     # NODOTDIR default
     from . import ginit
     ginit.rule_walker_bits(ctx, rule, which={'NODOTDIR-default', 'scandotdir'})
